@@ -154,6 +154,19 @@ def _scaffold_length_form(repo, scf, sl):
     raise AnalysisError(f"{sl.short}: how the scaffold length is computed is not a form understood (plain sum over self.rows, or a memo of it)")
 
 
+def _filtered_row_loop(fmt):
+    """a loop of the formatter over `<x>.rows` seen through a filter (comprehension with `if`, filter()): rows are skipped"""
+    for lp in [n for n in walk_shallow(fmt.node) if isinstance(n, ast.For)]:
+        it = lp.iter
+        if isinstance(it, ast.Call) and dotted(it.func) in ("enumerate", "iter", "list", "tuple") and it.args:
+            it = it.args[0]
+        if isinstance(it, ast.GeneratorExp | ast.ListComp) and len(it.generators) == 1 and norm(it.generators[0].iter).endswith(".rows") and it.generators[0].ifs:
+            return lp, f"only rows with '{norm(it.generators[0].ifs[0])[:40]}'"
+        if isinstance(it, ast.Call) and dotted(it.func) == "filter" and len(it.args) == 2 and norm(it.args[1]).endswith(".rows"):
+            return lp, f"rows passed through filter({norm(it.args[0])[:30]}, ...)"
+    return None
+
+
 def run(repo: Repo, L: Ledger, tier: str):
     for rid, txt in {
         "O1": "p == 0 at the first row of every scaffold", "O2": "object begin == p + 1", "O3": "object end == p + L(row)",
@@ -164,6 +177,11 @@ def run(repo: Repo, L: Ledger, tier: str):
         L.rule(rid, txt)
 
     fmt = repo.try_func("format_agp", "tola.assembly.format")
+    if fmt is not None and _filtered_row_loop(fmt):
+        lp_, what_ = _filtered_row_loop(fmt)
+        L.rule("O5", "part number == index + 1, rows unfiltered")
+        L.fail("O5", f"{fmt.short}:rows", f"the formatter writes {what_}: the skipped rows leave holes in the object coordinates (the running position is advanced only for written rows, or not at all)", fmt.loc(lp_))
+        return
     if fmt is None:
         raise AnalysisError("anchor format.format_agp vanished")
     ps = fmt.params()
